@@ -104,6 +104,7 @@ type mismatch struct {
 	Ev   string `json:"ev"`
 	S    []int  `json:"s"`
 	What string `json:"what"`
+	Kept bool   `json:"kept"` // the execution was written to the trace file (the trace specification judges it)
 }
 
 type summary struct {
@@ -134,11 +135,13 @@ func Replay(args []string) {
 	cases := fs.String("cases", "", "comma-separated ndjson files emitted by TLC from HelpersGen")
 	out := fs.String("out", "", "trace file")
 	sample := fs.Int("sample", 50, "also keep the trace of every n-th matching execution")
+	maxBad := fs.Int("maxbad", 60, "keep at most this many mismatching traces per (family, function)")
 	fs.Parse(args)
 	w := tr.NewWriter(*out)
 	sum := summary{Suite: "helpers", Mode: "replay", PerFam: map[string]int{}}
 	tid := 0
 	sampled := map[string]int{}
+	kept := map[string]int{}
 	for _, file := range strings.Split(*cases, ",") {
 		err := tr.ReadCases(file, func(line int, raw []byte) {
 			var l gline
@@ -156,13 +159,19 @@ func Replay(args []string) {
 				if nontrivial {
 					sum.Nontrivial++
 				}
+				// every kind of mismatch goes to the trace specification, but not thousands of instances of the same one
+				keep := tid%*sample == 0
 				for _, b := range bad {
 					sum.Mismatches++
-					if len(sum.List) < 200 {
-						sum.List = append(sum.List, mismatch{T: tid, Fam: l.F, Ev: b[0], S: c.S, What: b[1]})
+					k := kept[l.F+"/"+b[0]] < *maxBad
+					if k {
+						kept[l.F+"/"+b[0]]++
+						keep = true
+					}
+					if len(sum.List) < 400 && k {
+						sum.List = append(sum.List, mismatch{T: tid, Fam: l.F, Ev: b[0], S: c.S, What: b[1], Kept: true})
 					}
 				}
-				keep := len(bad) > 0 || tid%*sample == 0
 				if keep && len(bad) == 0 && sampled[l.F] < 1 {
 					sampled[l.F]++
 					sum.Samples = append(sum.Samples, map[string]interface{}{"case": json.RawMessage(mustJSON(c)), "family": l.F})
